@@ -576,6 +576,12 @@ func (e *evalCtx) indexExpr(x *sx) sval {
 	}
 	switch u := base.typ.Underlying().(type) {
 	case *types.Slice:
+		if st, isSt := e.t.isStruct(u.Elem()); isSt && st.NumFields() > 0 {
+			// slice of struct values: the element is addressed the way the code addresses it
+			// (IndexAddr: a struct reference whose fields live in the field heap)
+			ea := e.t.c.eaddrFun()
+			return sval{term: "(" + ea + " (sl_arr " + base.term + ") (ix (sl_off " + base.term + ") " + i.term + "))", sort: "Int", typ: types.NewPointer(u.Elem()), st: base.st}
+		}
 		hv := e.t.elemHV(u.Elem())
 		return e.mk(sel(sel(e.t.h.get(e.elemState(base), hv), "(sl_arr "+base.term+")"), "(ix (sl_off "+base.term+") "+i.term+")"), u.Elem())
 	case *types.Map:
@@ -836,6 +842,26 @@ func (e *evalCtx) callExpr(x *sx) sval {
 			ty = t.g.namedType("time", "Duration")
 		}
 		return boolv(fmt.Sprintf("(= (itag %s) %d)", v.term, t.g.tagOf(ty)))
+	case "is_type":
+		// is_type(x, "*T"): the dynamic type of interface value x is (pointer to) type T of this package
+		if len(args) != 2 || args[1].op != "str" {
+			e.fail("is_type(x, \"*T\")")
+		}
+		v := e.eval(args[0])
+		name := strings.TrimPrefix(args[1].val, "*")
+		var T types.Type
+		if pkg := e.pkg(); pkg != nil {
+			if o := pkg.Scope().Lookup(name); o != nil {
+				T = o.Type()
+			}
+		}
+		if T == nil {
+			e.fail("is_type: no type %s in this package", name)
+		}
+		if strings.HasPrefix(args[1].val, "*") {
+			T = types.NewPointer(T)
+		}
+		return boolv(fmt.Sprintf("(= (itag %s) %d)", v.term, t.g.tagOf(T)))
 	case "int_of":
 		v := e.eval(args[0])
 		return intv("(iint " + v.term + ")")
